@@ -132,31 +132,31 @@ def ifdLeaf (dir : List Comp) : List Comp := dir ++ [nameIfd, nameIfdBin]
 
 mutual
 /-- number of `*uefi.File` nodes visited below a node (each increments `*v.Index`) -/
-def cntSection : Section → Nat
-  | .mk _ _ encap => cntNodes encap
-def cntNodes : List Node → Nat
+def exCntSection : Section → Nat
+  | .mk _ _ encap => exCntNodes encap
+def exCntNodes : List Node → Nat
   | [] => 0
-  | .sec s :: ns => cntSection s + cntNodes ns
-  | .fv v :: ns => cntFv v + cntNodes ns
-def cntSections : List Section → Nat
+  | .sec s :: ns => exCntSection s + exCntNodes ns
+  | .fv v :: ns => exCntFv v + exCntNodes ns
+def exCntSections : List Section → Nat
   | [] => 0
-  | s :: ss => cntSection s + cntSections ss
-def cntFile : File → Nat
+  | s :: ss => exCntSection s + exCntSections ss
+def exCntFile : File → Nat
   | .mk i _ secs =>
     match i.nvar with
     | some _ => 1                       -- `File.ApplyChildren` visits only the store
-    | none => 1 + cntSections secs
-def cntFiles : List File → Nat
+    | none => 1 + exCntSections secs
+def exCntFiles : List File → Nat
   | [] => 0
-  | f :: fs => cntFile f + cntFiles fs
-def cntFv : Fv → Nat
-  | .mk _ _ files => cntFiles files
+  | f :: fs => exCntFile f + exCntFiles fs
+def exCntFv : Fv → Nat
+  | .mk _ _ files => exCntFiles files
 end
 
-def cntBiosElems : List BiosElem → Nat
+def exCntBiosElems : List BiosElem → Nat
   | [] => 0
-  | .pad _ _ :: es => cntBiosElems es
-  | .fv v :: es => cntFv v + cntBiosElems es
+  | .pad _ _ :: es => exCntBiosElems es
+  | .fv v :: es => exCntFv v + exCntBiosElems es
 
 /-! ### the files written -/
 
@@ -171,11 +171,11 @@ def exSection (dir : List Comp) (idx : Nat) : Section → List Entry
     | _ :: _ => exNodes (secDir dir i) idx encap
 def exNodes (dir : List Comp) (idx : Nat) : List Node → List Entry
   | [] => []
-  | .sec s :: ns => exSection dir idx s ++ exNodes dir (idx + cntSection s) ns
-  | .fv v :: ns => exFv dir idx v ++ exNodes dir (idx + cntFv v) ns
+  | .sec s :: ns => exSection dir idx s ++ exNodes dir (idx + exCntSection s) ns
+  | .fv v :: ns => exFv dir idx v ++ exNodes dir (idx + exCntFv v) ns
 def exSections (dir : List Comp) (idx : Nat) : List Section → List Entry
   | [] => []
-  | s :: ss => exSection dir idx s ++ exSections dir (idx + cntSection s) ss
+  | s :: ss => exSection dir idx s ++ exSections dir (idx + exCntSection s) ss
 def exFile (dir : List Comp) (idx : Nat) : File → List Entry
   | .mk i buf secs =>
     match i.nvar with
@@ -186,7 +186,7 @@ def exFile (dir : List Comp) (idx : Nat) : File → List Entry
       | _ :: _ => exSections (fileDir dir i idx) (idx + 1) secs
 def exFiles (dir : List Comp) (idx : Nat) : List File → List Entry
   | [] => []
-  | f :: fs => exFile dir idx f ++ exFiles dir (idx + cntFile f) fs
+  | f :: fs => exFile dir idx f ++ exFiles dir (idx + exCntFile f) fs
 def exFv (dir : List Comp) (idx : Nat) : Fv → List Entry
   | .mk i buf files =>
     match files with
@@ -197,15 +197,15 @@ end
 def exBiosElems (dir : List Comp) (idx : Nat) : List BiosElem → List Entry
   | [] => []
   | .pad b o :: es => (padLeaf dir o, b) :: exBiosElems dir idx es
-  | .fv v :: es => exFv dir idx v ++ exBiosElems dir (idx + cntFv v) es
+  | .fv v :: es => exFv dir idx v ++ exBiosElems dir (idx + exCntFv v) es
 
 def exBios (dir : List Comp) (idx : Nat) (b : BiosRegion) : List Entry :=
   match b.elems with
   | [] => [(biosLeaf dir, b.buf)]
   | _ :: _ => exBiosElems (biosDir dir) idx b.elems
 
-def cntRegion : Region → Nat
-  | .bios b => cntBiosElems b.elems
+def exCntRegion : Region → Nat
+  | .bios b => exCntBiosElems b.elems
   | _ => 0
 
 def exRegion (dir : List Comp) (idx : Nat) : Region → List Entry
@@ -215,7 +215,7 @@ def exRegion (dir : List Comp) (idx : Nat) : Region → List Entry
 
 def exRegions (dir : List Comp) (idx : Nat) : List Region → List Entry
   | [] => []
-  | r :: rs => exRegion dir idx r ++ exRegions dir (idx + cntRegion r) rs
+  | r :: rs => exRegion dir idx r ++ exRegions dir (idx + exCntRegion r) rs
 
 /-- everything `Extract.Run` writes below BasePath except summary.json, in writing order
     (DirPath starts as ".", which `filepath.Join` drops; the index is reset to 0) -/
@@ -299,11 +299,11 @@ def smSection (dir : List Comp) (idx : Nat) : Section → Section
     | _ :: _ => .mk (sumSecInfo i) [] (smNodes (secDir dir i) idx encap)
 def smNodes (dir : List Comp) (idx : Nat) : List Node → List Node
   | [] => []
-  | .sec s :: ns => .sec (smSection dir idx s) :: smNodes dir (idx + cntSection s) ns
-  | .fv v :: ns => .fv (smFv dir idx v) :: smNodes dir (idx + cntFv v) ns
+  | .sec s :: ns => .sec (smSection dir idx s) :: smNodes dir (idx + exCntSection s) ns
+  | .fv v :: ns => .fv (smFv dir idx v) :: smNodes dir (idx + exCntFv v) ns
 def smSections (dir : List Comp) (idx : Nat) : List Section → List Section
   | [] => []
-  | s :: ss => smSection dir idx s :: smSections dir (idx + cntSection s) ss
+  | s :: ss => smSection dir idx s :: smSections dir (idx + exCntSection s) ss
 def smFile (dir : List Comp) (idx : Nat) : File → File
   | .mk i _ secs =>
     match i.nvar with
@@ -314,7 +314,7 @@ def smFile (dir : List Comp) (idx : Nat) : File → File
       | _ :: _ => .mk (sumFileInfo i) [] (smSections (fileDir dir i idx) (idx + 1) secs)
 def smFiles (dir : List Comp) (idx : Nat) : List File → List File
   | [] => []
-  | f :: fs => smFile dir idx f :: smFiles dir (idx + cntFile f) fs
+  | f :: fs => smFile dir idx f :: smFiles dir (idx + exCntFile f) fs
 def smFv (dir : List Comp) (idx : Nat) : Fv → Fv
   | .mk i _ files =>
     match files with
@@ -325,7 +325,7 @@ end
 def smBiosElems (dir : List Comp) (idx : Nat) : List BiosElem → List BiosElem
   | [] => []
   | .pad _ o :: es => .pad (joinPath (padLeaf dir o)) o :: smBiosElems dir idx es
-  | .fv v :: es => .fv (smFv dir idx v) :: smBiosElems dir (idx + cntFv v) es
+  | .fv v :: es => .fv (smFv dir idx v) :: smBiosElems dir (idx + exCntFv v) es
 
 def smBios (dir : List Comp) (idx : Nat) (b : BiosRegion) : BiosRegion :=
   match b.elems with
@@ -339,7 +339,7 @@ def smRegion (dir : List Comp) (idx : Nat) : Region → Region
 
 def smRegions (dir : List Comp) (idx : Nat) : List Region → List Region
   | [] => []
-  | r :: rs => smRegion dir idx r :: smRegions dir (idx + cntRegion r) rs
+  | r :: rs => smRegion dir idx r :: smRegions dir (idx + exCntRegion r) rs
 
 /-- summary.json (the buffer slots hold the ExtractPath text; `FlashImage` itself has none) -/
 def summaryOf : Tree → Tree
